@@ -1,11 +1,12 @@
 (** Extraction of the executable models to OCaml (oracle for the
     correspondence checks).  ExtrOcamlBasic only; N/positive/nat stay the
     extracted inductive types. *)
-From XZ Require Import Base Crc Sha256 Bcj BcjInst.
+From XZ Require Import Base Crc Sha256 Bcj BcjInst CodeWrap C11Lemmas.
 Require Extraction.
 Require Import ExtrOcamlBasic.
 Extraction Language OCaml.
 Set Extraction KeepSingleton.
 Extraction "xzmodel"
   Crc.crc32 Crc.crc64 Sha256.sha256
-  BcjInst.bcj_code BcjInst.bcj_whole Bcj.delta_encode Bcj.delta_decode.
+  BcjInst.bcj_code BcjInst.bcj_whole Bcj.delta_encode Bcj.delta_decode
+  C11Lemmas.hist_run C11Lemmas.hist_start.
